@@ -50,7 +50,7 @@ Lemma general_agrees_upto5 :
   all_agree (fun ps c => parse_general (make_parser ps) (npos c) (kws c)) py_bind (sigs_with false 5) (calls 5) = true.
 Proof. vm_compute. reflexivity. Qed.
 
-Lemma accept_agrees_upto5 : accept_agrees (sigs_with true 5 ++ sigs_with false 5) (calls 5) = true.
+Lemma accept_agrees_upto4 : accept_agrees (sigs_with true 4 ++ sigs_with false 4) (calls 4) = true.
 Proof. vm_compute. reflexivity. Qed.
 
 Lemma argparse_eq_python_upto5 : forall ps c, In ps (sigs_with false 5) -> In c (calls 5) ->
@@ -62,11 +62,11 @@ Proof.
   - exact (all_agree_spec _ _ _ _ general_agrees_upto5 ps c Hp Hc).
 Qed.
 
-Lemma py_bind_accepts_iff_cpython_bind_upto5 : forall ps c,
-  In ps (sigs_with true 5 ++ sigs_with false 5) -> In c (calls 5) ->
+Lemma py_bind_accepts_iff_cpython_bind_upto4 : forall ps c,
+  In ps (sigs_with true 4 ++ sigs_with false 4) -> In c (calls 4) ->
   (py_bind ps c <> None <-> cpython_bind (map to_formal ps) c = BindOk).
 Proof.
-  intros ps c Hp Hc. pose proof accept_agrees_upto5 as H. unfold accept_agrees in H.
+  intros ps c Hp Hc. pose proof accept_agrees_upto4 as H. unfold accept_agrees in H.
   rewrite forallb_forall in H. specialize (H ps Hp). rewrite forallb_forall in H. specialize (H c Hc).
   apply Bool.eqb_prop in H. destruct (py_bind ps c); destruct (cpython_bind (map to_formal ps) c); try discriminate.
   - split; [reflexivity|discriminate].
